@@ -5,6 +5,7 @@ import (
 	"encoding/hex"
 	"errors"
 	"fmt"
+	"math"
 	"os"
 	"strconv"
 	"time"
@@ -241,17 +242,37 @@ type CheckPremiumAmount struct {
 	next Action
 }
 
+// premiumFitsAmount reports whether amount plus premium is a positive amount
+// that can be represented without wrapping around.
+func premiumFitsAmount(amount uint64, premium int64) bool {
+	if amount > math.MaxInt64 {
+		return false
+	}
+	if premium < 0 {
+		return premium != math.MinInt64 && uint64(-premium) < amount
+	}
+	return uint64(premium) <= math.MaxInt64-amount
+}
+
 func (v *CheckPremiumAmount) Execute(services *SwapServices, swap *SwapData) EventType {
 	if swap.SwapInAgreement != nil {
 		if swap.SwapInAgreement.Premium > swap.SwapInRequest.PremiumLimit {
 			return swap.HandleError(fmt.Errorf("premium amt too high: %d, limit : %d",
 				swap.SwapInAgreement.Premium, swap.SwapInRequest.PremiumLimit))
 		}
+		if !premiumFitsAmount(swap.SwapInRequest.Amount, swap.SwapInAgreement.Premium) {
+			return swap.HandleError(fmt.Errorf("premium %d does not fit the swap amount %d",
+				swap.SwapInAgreement.Premium, swap.SwapInRequest.Amount))
+		}
 		return v.next.Execute(services, swap)
 	} else if swap.SwapOutAgreement != nil {
 		if swap.SwapOutAgreement.Premium > swap.SwapOutRequest.PremiumLimit {
 			return swap.HandleError(fmt.Errorf("premium amt too high: %d, limit : %d",
 				swap.SwapOutAgreement.Premium, swap.SwapOutRequest.PremiumLimit))
+		}
+		if !premiumFitsAmount(swap.SwapOutRequest.Amount, swap.SwapOutAgreement.Premium) {
+			return swap.HandleError(fmt.Errorf("premium %d does not fit the swap amount %d",
+				swap.SwapOutAgreement.Premium, swap.SwapOutRequest.Amount))
 		}
 		return v.next.Execute(services, swap)
 	}
